@@ -329,6 +329,58 @@ fn reopen_image(ctx: &mut Ctx, img: &Snap, record: bool, followups: bool) -> Reo
     out
 }
 
+/// Continues after a crash: recover the image, reopen AGAIN, INSERT, DELETE, reopen, DROP, reopen —
+/// a dump after every step (`label:class:tables`).  Run on crash images inside a compaction / DROP and
+/// on the statement-boundary images they must be equivalent to.
+fn continuation(ctx: &mut Ctx, img: &Snap) -> Vec<String> {
+    ctx.n_img += 1;
+    let dir = ctx.work.join(format!("cont{}", ctx.n_img));
+    write_snap(img, &dir);
+    let mut out: Vec<String> = vec![];
+    let mut table: Option<&str> = None;
+    // steps: None = close and reopen, Some(sql) = statement ({T} = the first table that exists)
+    let steps: [(&str, Option<&str>); 7] = [
+        ("open1", None),
+        ("open2", None),
+        ("insert", Some("insert into {T} values (9001,1),(9002,2)")),
+        ("delete", Some("delete from {T} where a = 9001")),
+        ("open3", None),
+        ("drop", Some("drop table {T}")),
+        ("open4", None),
+    ];
+    let mut db: Option<Database> = None;
+    for (label, sql) in steps {
+        let class;
+        match sql {
+            None => {
+                drop(db.take());
+                match open(&ctx.rt, &dir) {
+                    Ok(d) => {
+                        db = Some(d);
+                        class = "ok".to_string();
+                    }
+                    Err((c, _)) => {
+                        out.push(format!("{label}:{c}:"));
+                        break;
+                    }
+                }
+            }
+            Some(sql) => {
+                let Some(t) = table else { continue };
+                class = run_sql(&ctx.rt, db.as_ref().unwrap(), &sql.replace("{T}", t)).class().to_string();
+            }
+        }
+        let d = dump(&ctx.rt, db.as_ref().unwrap());
+        if label == "open1" {
+            table = TABLES.iter().find(|t| !d.iter().any(|x| x.starts_with(&format!("{t}: absent")))).copied();
+        }
+        out.push(format!("{label}:{class}:{}", d.join(" | ")));
+    }
+    drop(db);
+    let _ = std::fs::remove_dir_all(&dir);
+    out
+}
+
 fn run_workload(ctx: &mut Ctx, wid: usize, model_ops: &str, stmts: &[String], out: &mut Vec<serde_json::Value>) {
     let dir = ctx.work.join(format!("rec{wid}"));
     let _ = std::fs::remove_dir_all(&dir);
@@ -433,6 +485,23 @@ fn run_workload(ctx: &mut Ctx, wid: usize, model_ops: &str, stmts: &[String], ou
         "states": states, "npoints": points.len(), "lost_rename": lost,
         "steps": steps.iter().map(|(k, v)| (k.to_string(), v.clone())).collect::<BTreeMap<_, _>>()}));
 
+    // statements whose crash images are continued after recovery (compaction, DROP): the
+    // statement-boundary images before / after them are the references
+    let continued = |i: i64| i >= 0 && ((stmts[i as usize].trim() == "COMPACT") || stmts[i as usize].to_lowercase().starts_with("drop"));
+    {
+        let mut seen: Vec<i64> = vec![];
+        for n in 0..points.len() {
+            let i = points[n].stmt;
+            if continued(i) && !seen.contains(&i) {
+                seen.push(i);
+                let pre = points[n].snap.clone();
+                let post = points.iter().find(|p| p.stmt > i).map(|p| p.snap.clone()).unwrap_or_else(|| final_snap.clone());
+                let cp = continuation(ctx, &pre);
+                let cq = continuation(ctx, &post);
+                out.push(json!({"type": "cont-ref", "workload": wid, "stmt": i, "sql": stmts[i as usize], "pre": cp, "post": cq}));
+            }
+        }
+    }
     // crash images
     let mut k_in_stmt: usize = 0;
     let mut cur_stmt: i64 = -2;
@@ -555,7 +624,8 @@ fn run_workload(ctx: &mut Ctx, wid: usize, model_ops: &str, stmts: &[String], ou
                     f.strip_prefix("dv/").and_then(|x| x.strip_suffix(".dv")).map(|x| !live.contains(&x.replace('_', ":"))).unwrap_or(false)
                 })
             };
-            out.push(json!({"type": "image", "workload": wid, "stmt": i, "k": k_here, "orphan_dv": orphan_dv, "sql": if i >= 0 { stmts[i as usize].clone() } else { "BOOT".into() },
+            let cont = if continued(i) { continuation(ctx, &img) } else { vec![] };
+            out.push(json!({"type": "image", "workload": wid, "stmt": i, "k": k_here, "orphan_dv": orphan_dv, "cont": cont, "sql": if i >= 0 { stmts[i as usize].clone() } else { "BOOT".into() },
                 "point": n, "name": p.name, "detail": p.detail, "kind": kind, "file": file, "j": j, "len": len,
                 "changes": changes.iter().map(change_str).collect::<Vec<_>>(),
                 "class": r.class, "msg": r.msg, "verdict": verdict, "dump": r.dump,
